@@ -125,4 +125,10 @@ impl Crdt for OR {
     fn persist_op(op: &Self::Op) -> Option<(Result<String, String>, Option<Self::Op>)> {
         Some(json_roundtrip(op))
     }
+    fn op_dot(op: &Self::Op) -> Option<String> {
+        match op {
+            Op::Add { dot: d, .. } => Some(dot(d)),
+            _ => None,
+        }
+    }
 }
